@@ -455,10 +455,81 @@ def monitor_c05(ctx, scn, tv, recs_before_logs):
 
 
 # ---------------------------------------------------------------------------------------------- driver
+def _canaries(ctx, focus, scn, sc, step, tr, wb, recs, done):
+    """Oracle canaries: a trace that the monitor has just passed is turned into a violating one by a single mutation
+    (a consumer's START moved in front of its producer's FINISH, a producer's status turned into a failure, -j lowered
+    below what ran at once, a START duplicated) and the monitor must object.  Each mutation is tried on the first
+    suitable trace of the run; a monitor that stays silent makes the check inconclusive."""
+    from . import core
+    ev = tr["events"]
+    S = [(i, e["o"]) for i, e in enumerate(ev) if e["e"] == "S"]
+    F = {e["o"]: (i, e["status"]) for i, e in enumerate(ev) if e["e"] == "F"}
+    if len(S) < 2 or step.get("jobserver") or step.get("load_caps") or step.get("interrupt_at", -1) not in (-1, None) \
+            or step.get("fail_start") or step.get("disk_faults"):
+        return
+    if focus != "C05" and (step.get("faults") or tr["result"].get("exit") != 0):
+        return
+    tv0 = TraceView(sc, step, tr, wb, recs)
+
+    def probe(name, ev2, step2=None):
+        if done.get(name):
+            return
+        tr2 = dict(tr, events=ev2)
+        c2 = core.Ctx(focus, ctx.tier, ctx.seed, ctx.level)
+        tv2 = TraceView(sc, step2 or step, tr2, wb, recs)
+        try:
+            if focus == "C04":
+                monitor_c04(c2, scn, tv2)
+            elif focus == "C06":
+                monitor_c06(c2, scn, tv2)
+            else:
+                monitor_c05(c2, scn, tv2, recs)
+        except Exception:
+            pass
+        done[name] = True
+        ctx.canary(bool(c2.violations), "%s/%s" % (focus, name))
+    # a consumer and a producer that both ran, the producer first
+    pair = None
+    for i, o in S:
+        sid = tv0.sid_of.get(o)
+        for p_ in tv0.preds.get(sid, ()):
+            po = tv0.graph.by_id[p_]["outs"][0]
+            if po in F and F[po][0] < i and F[po][1] == 0 and po in [x[1] for x in S]:
+                pair = (i, o, po)
+                break
+        if pair:
+            break
+    if focus == "C04" and pair:
+        i, o, po = pair
+        ps = next(k for k, x in S if x == po)
+        ev2 = [e for k, e in enumerate(ev) if k != i]
+        ev2.insert(ps + 1, ev[i])            # the consumer starts right after its producer started
+        probe("consumer-started-before-producer-finished", ev2)
+    if focus == "C05" and pair:
+        i, o, po = pair
+        ev2 = [dict(e, status=3) if (e["e"] == "F" and e["o"] == po) else e for e in ev]
+        probe("dependent-started-after-failure", ev2)
+    if focus == "C06":
+        mx, run = 0, 0
+        for e in ev:
+            if e["e"] == "S":
+                run += 1
+                mx = max(mx, run)
+            elif e["e"] == "F":
+                run -= 1
+        if mx >= 2:
+            probe("more-commands-than-j", ev, dict(step, j=mx - 1))
+        k, o = S[0]
+        ev3 = list(ev)
+        ev3.insert(F[o][0] + 1 if o in F else len(ev3), dict(ev[k]))
+        probe("command-started-twice", ev3)
+
+
 def run_explore(ctx, focus, items):
     """items: list of (scenario_json, info). Judges every explored trace with the focus' monitor."""
     infos = {scn["id"]: info for scn, info in items}
     stats = {"exhaustive": 0, "capped": 0}
+    canary_done = {}
 
     def handler(scn, results, err):
         if results is None:
@@ -509,6 +580,7 @@ def run_explore(ctx, focus, items):
                 if ncmd >= 2:
                     orders.add(hash(order))
                     ctx.nontrivial((scn["id"], order))
+                nv0 = len(ctx.violations)
                 if focus == "C04":
                     monitor_c04(ctx, scn, tv)
                 elif focus == "C06":
@@ -517,6 +589,8 @@ def run_explore(ctx, focus, items):
                     monitor_c05(ctx, scn, tv, recs)
                     if res.get("then"):
                         retry_c05(ctx, scn, tv, res["then"])
+                if len(ctx.violations) == nv0:
+                    _canaries(ctx, focus, scn, sc, step, tr, wb, recs, canary_done)
                 if len(ctx.samples) < 3 and ncmd >= 3:
                     ctx.sample({"scenario": scn["id"], "j": step.get("j"), "k": step.get("k"), "faults": step.get("faults"),
                                 "choices": res.get("choices"), "order": ["%s %s" % x for x in order]})
